@@ -17,6 +17,7 @@ ASSUMPTIONS = [
     "warnings are not compared, only results, exceptions by class (QPDFExc / runtime_error / logic_error) and the complete object state",
     "the list specification is evaluated on histories whose operands are pages, page-like dictionaries or unrelated objects; operations that damage the tree directly (replaceObject/swapObjects on /Pages nodes or the catalog, a page replaced by a non-dictionary) are compared model-vs-implementation only and the specification resumes after updateAllPagesCache",
     "getAllPages() handing out a reference that user code mutates is outside (DESIGN C13)",
+    "ext part: PgxModel.pgx_reread treats QPDFWriter as the identity on the object graph (C01's subject) and compares /Count and the marker list of the re-read file, not its warnings; the leaf function pgx_doc_leaves is compared with the driver's raw tree walk only where that walk meets dictionaries (otherwise both must refuse)",
 ]
 
 # ---------------------------------------------------------------- documents
@@ -243,6 +244,150 @@ FAMILIES = {
     "badkids": (lambda b: doc_badkids(b), False),
     "loop": (lambda b: doc_loop(b), False),
 }
+
+
+# ---------------------------------------------------------------- extension (c13full): unusual trees, random object graphs
+import random as _random
+
+
+def doc_wrongcount(base, delta, nested=False):
+    """a tree whose ROOT /Count is wrong (nothing else is)"""
+    d = doc_nested(base) if nested else doc_flat(3, base)
+    d.objects[2][b"Count"] = d.objects[2][b"Count"] + delta
+    return d
+
+
+def doc_innercount(base):
+    """interior /Count values wrong, the root's right"""
+    d = doc_nested(base)
+    kids = d.objects[2][b"Kids"]
+    d.objects[kids[0].n][b"Count"] = 7
+    d.objects[kids[2].n][b"Count"] = 1
+    return d
+
+
+def doc_rtree(seed, base):
+    """random page tree: nesting up to 3 levels, empty nodes, a page listed again under another node, direct page
+    dictionaries, missing /Type, wrong interior /Count, inheritable attributes on any level"""
+    r = _random.Random(seed)
+    d = Doc()
+    d.add(None)
+    d.add(None)
+    font = d.add(D(Type=N("Font"), BaseFont=N("Helv")))
+    mk = [base]
+    pages = []
+
+    def page(parent):
+        cs = d.add(Stream({}, b"(%d) Tj" % mk[0]))
+        pg = page_dict(parent, mk[0], cs, font, full=r.random() < 0.4)
+        if r.random() < 0.15:
+            del pg[b"Type"]
+        if r.random() < 0.2:
+            pg[b"Rotate"] = r.choice([0, 90, 180])
+        mk[0] += 1
+        ref = d.add(pg)
+        pages.append(ref)
+        return ref
+
+    def node(ref, parent, depth):
+        kids, nleaves = [], 0
+        for _ in range(r.randrange(0 if depth else 1, 4)):
+            x = r.random()
+            if depth < 2 and x < 0.3:
+                sub = d.add(None)
+                nleaves += node(sub, ref, depth + 1)
+                kids.append(sub)
+            elif x < 0.4 and pages:
+                kids.append(r.choice(pages))
+                nleaves += 1
+            elif x < 0.5:
+                kids.append(page_dict(ref, mk[0], None, None, full=r.random() < 0.5))
+                mk[0] += 1
+                nleaves += 1
+            else:
+                kids.append(page(ref))
+                nleaves += 1
+        nd = D(Type=N("Pages"), Count=nleaves, Kids=kids)
+        if parent is not None:
+            nd[b"Parent"] = parent
+            if r.random() < 0.25:
+                nd[b"Count"] = max(0, nleaves + r.choice([-1, 1, 5]))
+        if r.random() < 0.15:
+            del nd[b"Type"]
+        for key, val in ((b"Rotate", r.choice([90, 270])), (b"MediaBox", [0, 0, 50 + depth, 50]), (b"CropBox", [1, 1, 9, 9]),
+                         (b"Resources", D(Font=D(F1=font)))):
+            if r.random() < 0.35:
+                nd[key] = val
+        d.objects[ref.n] = nd
+        return nleaves
+    node(Ref(2), None, 0)
+    d.objects[1] = D(Type=N("Catalog"), Pages=Ref(2))
+    d.trailer = {b"Root": Ref(1)}
+    add_extras(d, pages[0] if pages else Ref(2), Ref(2))
+    return d
+
+
+def doc_rgraph(seed, base):
+    """three pages and a random object graph: sharing, cycles, references to pages, to the /Pages node, to null objects,
+    streams whose dictionaries point back into the graph, nested direct containers, a direct dictionary of /Type /Pages"""
+    r = _random.Random(seed)
+    d = doc_flat(3, base, annots=r.random() < 0.5, extras=False)
+    pages = list(d.objects[2][b"Kids"])
+    refs = [d.add(None) for _ in range(r.randrange(5, 12))]
+
+    def val(depth, in_dict=False):
+        x = r.random()
+        if x < 0.45:
+            return r.choice(refs)
+        if x < 0.55:
+            return r.choice(pages)
+        if x < 0.60:
+            return Ref(2)
+        if x < 0.68:
+            return r.randrange(100)
+        if x < 0.72 and not in_dict:
+            return None
+        if x < 0.78:
+            return N("Nm%d" % r.randrange(3))
+        if depth < 2 and x < 0.9:
+            return [val(depth + 1) for _ in range(r.randrange(0, 4))]
+        if depth < 2:
+            dd = {}
+            for k in range(r.randrange(0, 4)):
+                dd[b"K%d" % k] = val(depth + 1, True)
+            if r.random() < 0.1:
+                dd[b"Type"] = N("Pages")
+            return dd
+        return r.randrange(100)
+    for ref in refs:
+        x = r.random()
+        if x < 0.12:
+            d.objects[ref.n] = None
+        elif x < 0.3:
+            d.objects[ref.n] = Stream({b"K%d" % k: val(1, True) for k in range(r.randrange(0, 3))}, b"data-%d" % ref.n)
+        elif x < 0.5:
+            d.objects[ref.n] = [val(1) for _ in range(r.randrange(0, 5))]
+        elif x < 0.55:
+            d.objects[ref.n] = r.randrange(50)
+        else:
+            dd = {b"K%d" % k: val(1, True) for k in range(r.randrange(1, 5))}
+            if r.random() < 0.3:
+                dd[b"Mk"] = 500 + ref.n
+            d.objects[ref.n] = dd
+    d.objects[1][b"Extra"] = refs[0]
+    d.objects[pages[0].n][b"G"] = r.choice(refs)
+    return d
+
+
+WRONGCOUNT = ("wcp", "wcm", "wcnp", "wcnm")
+FAMILIES.update({
+    "wcp": (lambda b: doc_wrongcount(b, 1), True),
+    "wcm": (lambda b: doc_wrongcount(b, -1), True),
+    "wcnp": (lambda b: doc_wrongcount(b, 2, True), True),
+    "wcnm": (lambda b: doc_wrongcount(b, -3, True), True),
+    "innerc": (lambda b: doc_innercount(b), True),
+})
+BASE_FAMILIES = [f for f in FAMILIES if f not in WRONGCOUNT and f != "innerc"]   # what the original generators draw from
 
 _doc_cache = {}
 
@@ -673,6 +818,16 @@ def spec_plan(case, steps):
     return t0, plan
 
 
+def wrongcount_sig(case, why):
+    """known finding C13-F6: a wrong ROOT /Count is only repaired when an invalid kid is found as well.  Signature for the
+    violations that follow from it on a document generated with a wrong root /Count: the first flattening call raises
+    runtime_error, /Count stays wrong (also in the written file), addPage(last) uses /Count as the position"""
+    if case["fa"] in WRONGCOUNT or case["fb"] in WRONGCOUNT:
+        if re.search(r"/Count|valid call raised E:rt|tree leaves|getAllPages|write \+ re-read|final tree", why):
+            return "C13:wrong-root-count"
+    return ""
+
+
 def check_spec(chk, case, steps, t0, plan, spec_out, stats):
     """second pass: compare what the implementation shows with the list specification"""
     res = spec_out.split("|") if spec_out else []
@@ -681,7 +836,7 @@ def check_spec(chk, case, steps, t0, plan, spec_out, stats):
     sloppy_page = [False, False]      # a page object was replaced/swapped, or something without page attributes was inserted:
     #                                   the re-read may then warn about what the caller put there
     for d, fam in enumerate((case["fa"], case["fb"])):
-        if fam in ("sloppy", "direct", "shared", "sharedx", "sharedn", "sharedn3"):
+        if fam in ("sloppy", "direct", "shared", "sharedx", "sharedn", "sharedn3") or fam.startswith("rt"):
             sloppy_page[d] = True
     # effective /Rotate of every position (own value or inherited): a second plain list, maintained here; None = unknown
     rots = [list(t["rots"]) for t in t0]
@@ -792,13 +947,16 @@ def check_spec(chk, case, steps, t0, plan, spec_out, stats):
                 if pl is None or pl[1] != want[d]:
                     why = "getAllPages result %s, list model %s" % (r, want[d])
         if why:
+            wsig = wrongcount_sig(case, why)
             chk.violation({"kind": "property-fails-on-implementation", "part": "list-spec", "case": desc, "step": i + 1,
                            "operation": cur.get("o"), "why": why, "specification": res[i], "implementation": {k: cur.get(k) for k in ("r", "t", "p", "f")},
                            "minimal_history": concrete_ops(steps)[:i + 1],
-                           "replay": replay_line(case, steps)}, signature=(sig or "") if why == "invalid call did not raise" else "")
+                           "replay": replay_line(case, steps)}, signature=(sig or "") if why == "invalid call did not raise" else wsig)
             stats["spec_viol"] += 1
             if sig and why == "invalid call did not raise":
                 stats["known_sig"][sig] = stats["known_sig"].get(sig, 0) + 1
+            elif wsig:
+                stats["known_sig"][wsig] = stats["known_sig"].get(wsig, 0) + 1
             return
         stats["spec_steps"] += 1
     if len(plan) != len(steps) - 2:
@@ -831,9 +989,12 @@ def check_spec(chk, case, steps, t0, plan, spec_out, stats):
         if why:
             break
     if why:
+        wsig = wrongcount_sig(case, why)
         chk.violation({"kind": "property-fails-on-implementation", "part": "list-spec-final", "case": desc, "why": why,
-                       "implementation": {k: fin.get(k) for k in ("P", "F", "t", "W")}, "replay": replay_line(case, steps)})
+                       "implementation": {k: fin.get(k) for k in ("P", "F", "t", "W")}, "replay": replay_line(case, steps)}, signature=wsig)
         stats["spec_viol"] += 1
+        if wsig:
+            stats["known_sig"][wsig] = stats["known_sig"].get(wsig, 0) + 1
     else:
         stats["spec_complete"] += 1
 
@@ -1085,7 +1246,7 @@ def gen_cases(chk):
                "ops": [rng.choice(alpha) for _ in range(maxlen + 1 + rng.randrange(2))], "part": "exhaustive-sampled"}
     # random long histories over all families
     n_r = 1500 if quick else 20000
-    fams = list(FAMILIES)
+    fams = list(BASE_FAMILIES)
     ok_fams = [f for f in fams if FAMILIES[f][1]]
     for k in range(n_r):
         hostile = rng.random() < 0.25
@@ -1225,11 +1386,130 @@ def run_batch(chk, cases, agg):
                       "replay": replay_line(cases[i], isteps[i]),
                       "note": "the model of QPDF_pages.cc / Foreign::Copier and the implementation print different results or object states"}
     agg["ties"] += len(tie)
+    if agg.get("post") is not None:
+        agg["post"](chk, cases, impl, isteps, msteps, conc, agg)
     for c in all_cases:
         agg["parts"][c["part"]] = agg["parts"].get(c["part"], 0) + 1
         if len(agg["samples"].setdefault(c["part"], [])) < 2:
             agg["samples"][c["part"]].append(describe(c))
     return True
+
+
+
+# ---------------------------------------------------------------- extension part (c13full)
+W_OK = re.compile(r"-?\d+:[0-9,?-]*")
+
+
+def ext_gen(chk):
+    """histories aimed at what the strengthened theorems quantify over: documents whose tree the page cache has to
+    repair (random trees, wrong root /Count, wrong interior /Count), random object graphs for the copier, every
+    operation kind mixed, write + re-read at the end of every history"""
+    rng = chk.rng
+    quick = chk.tier == "quick"
+    new = ["wcp", "wcm", "wcnp", "wcnm", "innerc"]
+    for kind, builder, n in (("rt", doc_rtree, 5 if quick else 16), ("rg", doc_rgraph, 5 if quick else 16)):
+        for _ in range(n):
+            seed = rng.randrange(1 << 30)
+            name = "%s%d" % (kind, seed)
+            FAMILIES[name] = ((lambda b, s=seed, f=builder: f(s, b)), True)
+            new.append(name)
+    old = [f for f in BASE_FAMILIES if FAMILIES[f][1]]
+    wc = [f for f in new if f in WRONGCOUNT]
+    rest = [f for f in new if f not in WRONGCOUNT]
+    for _ in range(420 if quick else 8000):
+        fa = rng.choice(wc) if rng.random() < 0.15 else rng.choice(rest)
+        fb = rng.choice(rest) if rng.random() < 0.5 else rng.choice(old)
+        if rng.random() < 0.5:
+            fa, fb = fb, fa
+        ops = gen_ops(rng, rng.choice([3, 8, 20]))
+        if rng.random() < 0.3:
+            # copies of several objects of the same source, then the page that refers to them (memo, placeholders)
+            d = rng.randrange(2)
+            pre = ["cf,%d,%d,@o%d" % (d, 1 - d, rng.randrange(40)) for _ in range(rng.randrange(1, 4))]
+            ops = pre + ["ap,%d,%d,@l%d,%d" % (d, 1 - d, rng.randrange(4), rng.randrange(2))] + ops
+        part = "ext-wrongcount" if (fa in WRONGCOUNT or fb in WRONGCOUNT) else ("ext-graph" if (fa.startswith("rg") or fb.startswith("rg")) else "ext-tree")
+        yield {"fa": fa, "fb": fb, "ba": 10, "bb": 40, "flags": rng.choice("012") + "w" + ("v" if rng.random() < 0.25 else ""), "ops": ops, "part": part}
+
+
+def ext_post(chk, cases, impl, isteps, msteps, conc, agg):
+    """second tie: the extracted specification function pgx_doc_leaves (evaluated on the model's state) must show the leaves
+    the driver's raw walk of the real tree shows after every step, and the model's pgx_reread must be what write + re-read
+    through QPDFWriter / a fresh QPDF shows"""
+    runner = os.path.join(common.EXTRACT, "model_runner")
+    x = agg["ext"]
+    idx, lines, need = [], [], []
+    for i, c in enumerate(cases):
+        if any("E:unm" in st.get(k, "") for st in msteps[i] for k in ("r", "p", "f", "P", "F")):
+            continue
+        if any("x" in st or (st.get("o", "").startswith("ri,") and st.get("r") == "ok") for st in isteps[i]):
+            continue
+        idx.append(i)
+        lines.append("pgxrun %s %s.%d %s.%d %s" % (c["flags"].replace("v", "").replace("w", ""), c["fa"], c["ba"], c["fb"], c["bb"], ";".join(conc[i]) or "-"))
+        for fam, b in ((c["fa"], c["ba"]), (c["fb"], c["bb"])):
+            if (fam, b) not in need:
+                need.append((fam, b))
+    if not lines:
+        return
+    hdr = ["pgdoc %s.%d %s %s" % (fam, b, get_doc(fam, b)[0], get_doc(fam, b)[1]) for fam, b in need]
+    n = (len(lines) + 3) // 4
+    outs = common.par_map(lambda ch: run_capped(runner, hdr, ch), [lines[k:k + n] for k in range(0, len(lines), n)], workers=4)
+    out = [o for part in outs for o in part]
+    for i, o in zip(idx, out):
+        c, st = cases[i], isteps[i]
+        parts = o.split("|")
+        if o.startswith("?") or len(parts) != len(st):
+            x["diff"].append({"what": "runner output", "case": describe(c, st), "output": o[:300]})
+            continue
+        for k, (a, b) in enumerate(zip(st[:-1], parts[:-1])):
+            ts = [tree_info(t) for t in a["t"].split("/")]
+            b, _, fl = b.partition(" F=")
+            ml = b[2:].split("/")
+            x["states"] += 2
+            x["states_flat"] += fl.count("1")
+            x["states_nested"] += fl.count("n")
+
+            for d in (0, 1):
+                exp = "x" if (ts[d] is None or ts[d]["weird"]) else "".join(("%d," % m) if m >= 0 else "?," for m in ts[d]["marks"])
+                x["leaf_steps"] += 1
+                if exp != ml[d]:
+                    x["diff"].append({"what": "leaves", "case": describe(c, st), "step": k, "document": d, "implementation_tree": a["t"], "pgx_doc_leaves": ml[d]})
+        raw = impl[i]
+        if " W=" in raw:
+            iw = raw.split(" W=", 1)[1]
+            ma, mb = re.match(r"^(-?\d+:[0-9,?-]*):w\d+/", iw), re.search(r"/(-?\d+:[0-9,?-]*):w\d+$", iw)
+            got = (ma.group(1) if ma else "E") + "/" + (mb.group(1) if mb else "E")
+            x["rereads"] += 1
+            if "E" in got:
+                x["reread_errors"] += 1
+            if parts[-1] != "W=" + got:
+                x["diff"].append({"what": "reread", "case": describe(c, st), "implementation": iw[:300], "pgx_reread": parts[-1], "replay": replay_line(c, st)})
+
+
+def run_ext(chk, agg):
+    agg["ext"] = {"diff": [], "leaf_steps": 0, "rereads": 0, "reread_errors": 0, "states": 0, "states_flat": 0, "states_nested": 0, "fam_flat": {}}
+    agg["post"] = ext_post
+    ok = run_batch(chk, list(ext_gen(chk)), agg)
+    agg["post"] = None
+    x = agg["ext"]
+    # every family as read (no call made yet): inside which theorem's hypothesis?
+    runner = os.path.join(common.EXTRACT, "model_runner")
+    fams = sorted(FAMILIES)
+    hdr = ["pgdoc %s.10 %s %s" % (f, get_doc(f, 10)[0], get_doc(f, 10)[1]) for f in fams]
+    for f, o in zip(fams, run_capped(runner, hdr, ["pgxflat %s.10" % f for f in fams])):
+        x["fam_flat"].setdefault(f if f[:2] not in ("rt", "rg") else f[:2] + "*", set()).add(o)
+    chk.cov["parts"]["ext"] = {"leaf_observations_compared": x["leaf_steps"], "rereads_compared": x["rereads"], "rereads_that_raise": x["reread_errors"],
+                               "differences": len(x["diff"]),
+                               # domain of the unrestricted theorems (pgx_flat_chk, sound by flat_check_sound): measured on the explored states
+                               "document_states_seen": x["states"], "document_states_inside_theorem_domain": x["states_flat"],
+                               # pgn_wf_chk (sound by nested_check_sound): well-formed nested trees as read, domain of first_flatten_nested
+                               "document_states_nested_wellformed_as_read": x["states_nested"],
+                               "families_flat_as_read": sorted(f for f, v in x["fam_flat"].items() if v == {"1"}),
+                               "families_nested_wellformed_as_read": sorted(f for f, v in x["fam_flat"].items() if v == {"n"}),
+                               "families_mixed_or_outside": {f: sorted(v) for f, v in sorted(x["fam_flat"].items()) if v not in ({"1"}, {"n"})}}
+    if x["diff"] and ok:
+        chk.violation({"kind": "correspondence-broken", "correspondence": "corr:C13:pgx-leaves-reread", "first": x["diff"][0], "differing": len(x["diff"]),
+                       "note": "the extracted pgx_doc_leaves / pgx_reread disagree with the raw tree walk / write + re-read of the implementation"}, no_input=True)
+    return ok
 
 
 def case_batches(chk, size=25000):
@@ -1254,6 +1534,8 @@ def run(chk):
             return
         if len(chk.violations) > 2000:
             break                     # enough failing inputs have been collected
+    if not run_ext(chk, agg):
+        return
     stats = agg["stats"]
     total = sum(agg["parts"].values())
     if agg["tie"] is not None:
